@@ -58,6 +58,9 @@ def prepare(n):
         if not os.path.exists(w):
             os.makedirs(w)
             sh(["git", "-C", REPO, "worktree", "add", "-f", "--detach", os.path.join(w, "repo"), "HEAD"])
+        head = sh(["git", "-C", REPO, "rev-parse", "HEAD"])[1].strip()
+        sh(["git", "-C", os.path.join(w, "repo"), "checkout", "--", "."])
+        sh(["git", "-C", os.path.join(w, "repo"), "checkout", "--detach", head])
         sh(["rsync", "-a", "--exclude", ".git", "--exclude", "replays", "--exclude", "mutants", "--exclude", "seeded", VERIF + "/", os.path.join(w, "verif") + "/"])
     print("workers ready:", n)
 
